@@ -281,14 +281,19 @@ class _Affine(torch.nn.Module):
 def _persample(fn, rank, seed, dtype=torch.float64):
     """does sample 1 of `fn(batch of 3)` equal `fn(sample 1 alone)`?  (exact, integer data)"""
     g = torch.Generator().manual_seed(seed)
-    x = torch.randint(-5, 6, [3] + [2] * (rank - 1), generator=g).to(dtype)
+    # four samples, all entries non-zero and the samples far apart, so that nothing coincides by accident (a flip of three
+    # samples keeps the middle one; a cumulative sum over a zero sample changes nothing)
+    x = torch.randint(1, 6, [4] + [2] * (rank - 1), generator=g).to(dtype)
+    x = x + 10 * torch.arange(4, dtype=dtype).reshape([4] + [1] * (rank - 1))
     try:
-        full, one = fn(x), fn(x[1:2])
+        full = fn(x)
+        ones = [fn(x[i:i + 1]) for i in range(4)]
     except (IndexError, RuntimeError, TypeError, ValueError):
         return 0
     if isinstance(full, (tuple, list)):
-        full, one = full[0], one[0]
-    ok = full.dim() >= 1 and full.shape[0] == 3 and one.shape[0] == 1 and full.shape[1:] == one.shape[1:] and torch.equal(full[1], one[0])
+        full, ones = full[0], [o[0] for o in ones]
+    ok = full.dim() >= 1 and full.shape[0] == 4 and all(
+        o.shape[0] == 1 and full.shape[1:] == o.shape[1:] and torch.equal(full[i], o[0]) for i, o in enumerate(ones))
     return 1 if ok else 0
 
 
